@@ -178,7 +178,12 @@ func (c02) Gen(r *Rand, idx int, tier string) interface{} {
 		i -= 2048
 	}
 	// random part
-	p.Entries = genResponse(r, 8)
+	if r.Pct(25) {
+		// also encodings on which decoder and layout disagree: what matters here is that fragmentation changes nothing
+		p.Entries = genResponseFrom(r, 8, append(append([]peer.Entry{}, zooList...), zooDisputed...))
+	} else {
+		p.Entries = genResponse(r, 8)
+	}
 	body, ends, _ := buildResponse(p.Entries)
 	l := len(body)
 	ncuts := 0
